@@ -11,12 +11,6 @@ namespace CrCube
 def swapR (r : Resp) : Resp := { r with ans := match r.ans with | [a, b] => [b, a] | x => x }
 def swapS (s : Survey) : Survey := s.map swapR
 
-theorem wsum_map (s : Survey) (f : Resp → Resp) (hf : ∀ r, (f r).w = r.w) (p : Resp → Bool) :
-    wsum (s.map f) p = wsum s (fun r => p (f r)) := by
-  induction s with
-  | nil => simp
-  | cons r s ih => simp only [List.map_cons, wsum_cons, ih, hf]
-
 /-- respondent level: exchanging the variables and the answers exchanges the roles -/
 theorem specCount_swap (R C : Var) (hR : R.CM) (hC : C.CM) (s : Survey) (i j : Nat) (m1 m2 : Bool) :
     specCount [C, R] (swapS s) [j, i] [m2, m1] = specCount [R, C] s [i, j] [m1, m2] := by
